@@ -308,6 +308,27 @@ impl C05 {
                 }
             }
         }
+        // a second wrapper around ANOTHER similarity, alive at the same time and used alternately: each
+        // wrapper answers with its own function
+        {
+            let sim2 = TableSim { seed: rng.next_u64(), symmetric: false, mode: rng.next_u64(), calls: RefCell::new(vec![]) };
+            let cached2 = CachedSimilarity::new(ByRef(&sim2));
+            out.bucket("two_cached_wrappers_alive");
+            for x in ids.iter().take(8) {
+                for y in ids.iter().take(8) {
+                    let (tx, ty) = (ont.hpo(*x).unwrap(), ont.hpo(*y).unwrap());
+                    let v1 = cached.calculate(&tx, &ty);
+                    let v2 = cached2.calculate(&tx, &ty);
+                    let v1b = cached.calculate(&tx, &ty);
+                    out.check(v1.to_bits() == sim.value(*x, *y).to_bits() && v1b.to_bits() == v1.to_bits(), "C05", "cache_returns_other_value", || {
+                        format!("first wrapper ({x},{y}) = {v1} / {v1b}, its f = {}", sim.value(*x, *y))
+                    });
+                    out.check(v2.to_bits() == sim2.value(*x, *y).to_bits(), "C05", "cache_returns_other_value", || {
+                        format!("second wrapper ({x},{y}) = {v2}, its f = {} (the first wrapper's f = {})", sim2.value(*x, *y), sim.value(*x, *y))
+                    });
+                }
+            }
+        }
         // the cache must return f for any query afterwards as well
         for x in &ids {
             for y in &ids {
@@ -424,7 +445,7 @@ impl Monitor for C05 {
         v
     }
     fn mandatory_buckets(&self, _tier: Tier) -> Vec<String> {
-        ["shape/square", "shape/vector", "shape/rectangular", "shape/empty", "similarity/asymmetric", "similarity/symmetric", "set_shape/empty_side", "set_shape/rectangular", "set_shape/square", "same_object_on_both_sides", "sets_with_obsolete_members", "huge/more_than_65535_vs_empty", "huge/sizes_sum_above_65535"]
+        ["shape/square", "shape/vector", "shape/rectangular", "shape/empty", "similarity/asymmetric", "similarity/symmetric", "set_shape/empty_side", "set_shape/rectangular", "set_shape/square", "same_object_on_both_sides", "two_cached_wrappers_alive", "sets_with_obsolete_members", "huge/more_than_65535_vs_empty", "huge/sizes_sum_above_65535"]
             .iter()
             .map(|s| (*s).to_string())
             .collect()
